@@ -77,28 +77,44 @@ Proof.
   - intros o' _. exact I.
 Qed.
 
+Lemma list_upd_twice {A} (l : list A) n f h : list_upd (list_upd l n f) n h = list_upd l n (fun o => h (f o)).
+Proof. revert n. induction l as [|a l IH]; intros n; destruct n; cbn [list_upd]; try reflexivity. rewrite IH. reflexivity. Qed.
+Lemma tset_twice (t : T) p f h : tset (tset t p f) p h = tset t p (fun o => h (f o)).
+Proof. unfold tset. cbn [t_pool t_free]. rewrite list_upd_twice. reflexivity. Qed.
+
 (** ---- the walk ---- *)
+Definition Kupd (K : T -> ghost -> Prop) : Prop := forall (t : T) g p o (f : Obj -> Obj),
+  R t g -> K t g -> tget t p = Some o -> o_opcode o = aml_pOpIntNamePathOrMethodCall -> o_opcode (f o) <> aml_pOpMethod ->
+  o_opcode (f o) <> aml_pOpIntNamePathOrMethodCall -> K (tset t p f) g.
+
+Section Inv.
+(** an invariant [K] of the pass: it survives the moves of attachSiblingsAsArgs (as in ParserTotalNonNamed) and the rewriting of a
+    name-path-or-method-call object into something that is not a Method *)
+Variable K : T -> ghost -> Prop.
+Hypothesis K_move : Kmove K.
+Hypothesis K_upd : Kupd K.
+
 Definition rpost (g : ghost) (P : N) (GP : option N) (m1 : list N) (s' : pstate) (g' : ghost) (m2' : list N) : Prop :=
-  TI s' g' /\ reloc g g' (desc g (top P GP)) /\ ctx g' P GP m1 m2' /\ (forall r, groot g r -> groot g' r) /\ typed (p_tree s').
+  TI s' g' /\ reloc g g' (desc g (top P GP)) /\ ctx g' P GP m1 m2' /\ (forall r, groot g r -> groot g' r) /\ typed (p_tree s') /\ K (p_tree s') g'.
 
 Definition RC_spec (fuel : nat) : Prop := forall x s g GP m1 m2,
-  TI s g -> typed (p_tree s) -> glive g 0 -> glive g x -> ctx g x GP m1 m2 ->
+  TI s g -> typed (p_tree s) -> glive g 0 -> glive g x -> ctx g x GP m1 m2 -> K (p_tree s) g ->
   wp True (resolveMethodCalls fuel x) s (fun r s' => exists g' m2', rpost g x GP m1 s' g' m2').
 
 Definition RCloop_spec (fuel : nat) : Prop := forall obj argIndex s g GP m1 m2,
-  TI s g -> typed (p_tree s) -> glive g 0 -> glive g obj -> ctx g obj GP m1 m2 ->
+  TI s g -> typed (p_tree s) -> glive g 0 -> glive g obj -> ctx g obj GP m1 m2 -> K (p_tree s) g ->
   (argIndex = InvalidIndex \/ In argIndex (kids g obj)) ->
   wp True (resolveCalls_loop fuel obj argIndex) s (fun r s' => exists g' m2', rpost g obj GP m1 s' g' m2').
 
 Lemma step_RC fuel : RCloop_spec fuel -> RC_spec (S fuel).
 Proof.
-  intros IHl x s g GP m1 m2 H Hty H0 Hl Hctx. cbn [resolveMethodCalls].
+  intros IHl x s g GP m1 m2 H Hty H0 Hl Hctx HK. cbn [resolveMethodCalls].
   pose proof (ti_R _ _ H) as HR.
   apply wp_bind. apply wp_objectAt'; [apply (TI_ObjectAt _ _ _ H Hl)|].
   destruct (TI_live_get _ _ _ H Hl) as (o & Ho & Hlo).
   apply wp_bind. apply wp_rdf. exists o. split; [exact Ho|].
   destruct (R_kids _ _ HR _ _ Ho Hlo) as (_ & Hlast & _). rewrite Hlast.
-  apply (IHl x _ s g GP m1 m2 H Hty H0 Hl Hctx).
+  apply (IHl x _ s g GP m1 m2 H Hty H0 Hl Hctx HK).
   destruct (kids g x) as [|c l]; [left; reflexivity|right; apply last_In].
 Qed.
 
@@ -109,7 +125,7 @@ Proof. repeat split; try (apply newokb_sound; reflexivity); try discriminate; ap
 
 Lemma step_RCloop fuel : RC_spec fuel -> RCloop_spec fuel -> RCloop_spec (S fuel).
 Proof.
-  intros IHc IHl obj argIndex s g GP m1 m2 H Hty H0 Hl Hctx Harg. cbn [resolveCalls_loop].
+  intros IHc IHl obj argIndex s g GP m1 m2 H Hty H0 Hl Hctx HK Harg. cbn [resolveCalls_loop].
   set (S0 := desc g (top obj GP)).
   assert (HS0top : S0 (top obj GP)) by constructor.
   assert (HS0obj : S0 obj) by (eapply desc_top; eauto).
@@ -122,8 +138,8 @@ Proof.
   apply wp_bind. apply wp_rdf. exists ao0. split; [exact Hao0|]. rewrite (R_index _ _ HR _ _ Hao0).
   destruct (in_split _ _ Hin) as (l1 & l2 & Ekids).
   (* the subtree of the argument *)
-  apply wp_bind. eapply wp_weaken; [apply (IHc argIndex s g (Some obj) l1 l2 H Hty H0 Hla Ekids)|auto|].
-  intros res s1 (g1 & l2a & H1 & Rl1 & Hk1 & Hroots1 & Hty1). cbn [top ctx] in Rl1, Hk1.
+  apply wp_bind. eapply wp_weaken; [apply (IHc argIndex s g (Some obj) l1 l2 H Hty H0 Hla Ekids HK)|auto|].
+  intros res s1 (g1 & l2a & H1 & Rl1 & Hk1 & Hroots1 & Hty1 & HK1). cbn [top ctx] in Rl1, Hk1.
   assert (Rl1' : reloc g g1 S0).
   { eapply reloc_lift; [|exact Rl1]. intros y Hy. eapply desc_in_closed; [apply closed_desc|exact HS0obj|exact Hy]. }
   assert (Hctx1 : ctx g1 obj GP m1 m2) by (apply (ctx_inside s g g1 obj GP m1 m2 H Hctx Rl1 Hroots1)).
@@ -133,20 +149,20 @@ Proof.
   { apply wp_ret. exists g1, m2. split; auto. }
   (* the continuation: the previous argument *)
   assert (Hcont : forall s2 g2 l2b m2b, TI s2 g2 -> typed (p_tree s2) -> reloc g g2 S0 -> kids g2 obj = l1 ++ argIndex :: l2b ->
-     ctx g2 obj GP m1 m2b -> (forall r, groot g r -> groot g2 r) ->
+     ctx g2 obj GP m1 m2b -> (forall r, groot g r -> groot g2 r) -> K (p_tree s2) g2 ->
      wp True (mlet prev <~ rdf argIndex o_prev ;; resolveCalls_loop fuel obj prev) s2
         (fun r s' => exists g' m2', rpost g obj GP m1 s' g' m2')).
-  { intros s2 g2 l2b m2b H2 Hty2 Rl2 Hk2 Hctx2 Hroots2. pose proof (ti_R _ _ H2) as HR2.
+  { intros s2 g2 l2b m2b H2 Hty2 Rl2 Hk2 Hctx2 Hroots2 HK2. pose proof (ti_R _ _ H2) as HR2.
     assert (Hin2 : In argIndex (kids g2 obj)) by (rewrite Hk2; apply in_or_app; right; left; reflexivity).
     destruct ((R_gwf _ _ HR2) _ _ Hin2) as (Hlo2 & Hla2).
     destruct (TI_live_get _ _ _ H2 Hla2) as (ao2 & Hao2 & Hlao2).
     apply wp_bind. apply wp_rdf. exists ao2. split; [exact Hao2|].
     assert (H02 : glive g2 0) by (apply (reloc_glive _ _ _ 0 Rl2); exact H0).
-    eapply wp_weaken; [apply (IHl obj (o_prev ao2) s2 g2 GP m1 m2b H2 Hty2 H02 Hlo2 Hctx2)|auto|].
+    eapply wp_weaken; [apply (IHl obj (o_prev ao2) s2 g2 GP m1 m2b H2 Hty2 H02 Hlo2 Hctx2 HK2)|auto|].
     - apply (prev_sibling _ _ HR2 obj argIndex ao2 Hin2 Hao2).
-    - intros r' s' (g' & m2' & F1 & F2 & F3 & F4 & F5). exists g', m2'. split; auto.
+    - intros r' s' (g' & m2' & F1 & F2 & F3 & F4 & F5 & F6). exists g', m2'. split; auto.
       split; [eapply reloc_chain; [apply closed_desc|exact HS0top|exact Rl2|exact F2]|].
-      split; [exact F3|]. split; [intros r0 Hr0; apply F4; apply Hroots2; exact Hr0|exact F5]. }
+      split; [exact F3|]. split; [intros r0 Hr0; apply F4; apply Hroots2; exact Hr0|]. split; [exact F5|exact F6]. }
   pose proof (ti_R _ _ H1) as HR1.
   assert (Hla1 : glive g1 argIndex) by (apply (reloc_glive _ _ _ argIndex Rl1); exact Hla).
   destruct (sibling_links _ _ HR1 obj l1 argIndex l2a Hl1 Hk1) as (ao & Hao & Hlao & Hapar & _ & _ & _).
@@ -154,13 +170,13 @@ Proof.
   apply wp_bind, wp_get.
   destruct (negb (o_opcode ao =? aml_pOpIntNamePathOrMethodCall) || negb (o_tableHandle ao =? p_handle s1)) eqn:Ecall.
   { (* not a call candidate of this table: connectNonNamedObjArg *)
-    apply wp_bind. eapply wp_weaken; [apply (arg_spec fuel obj argIndex s1 g1 l1 l2a GP m1 m2 H1 Hl1 Hk1 Hctx1)|auto|].
-    intros r s2 (g2 & l2b & m2b & (H2 & Rl2 & Hctx2 & Hroots2 & Hpf2) & Hk2).
+    apply wp_bind. eapply wp_weaken; [apply (arg_spec K K_move fuel obj argIndex s1 g1 l1 l2a GP m1 m2 H1 Hl1 Hk1 Hctx1 HK1)|auto|].
+    intros r s2 (g2 & l2b & m2b & (H2 & Rl2 & Hctx2 & Hroots2 & Hpf2 & HK2) & Hk2).
     assert (Rl2' : reloc g g2 S0) by (eapply reloc_chain; [apply closed_desc|exact HS0top|exact Rl1'|exact Rl2]).
     assert (Hty2 : typed (p_tree s2)) by (eapply typed_pframe; eauto).
     destruct (pres_eqb r RFailed).
     { apply wp_ret. exists g2, m2b. split; [exact H2|]. split; [exact Rl2'|]. split; [exact Hctx2|].
-      split; [intros r0 Hr0; apply Hroots2; apply Hroots1; exact Hr0|exact Hty2]. }
+      split; [intros r0 Hr0; apply Hroots2; apply Hroots1; exact Hr0|]. split; [exact Hty2|exact HK2]. }
     apply (Hcont s2 g2 l2b m2b); auto. }
   (* a name path that may be a method call *)
   apply orb_false_elim in Ecall. destruct Ecall as (Eop & _). apply negb_false_iff in Eop. apply N.eqb_eq in Eop.
@@ -184,9 +200,10 @@ Proof.
     apply wp_bind. eapply wp_tableIndex; [exact Hidx|].
     apply wp_bind. eapply (wp_set_info _ argIndex idx _ g1); [exact H2|exact Hla1|exact Hinf|]. intros H3.
     apply (Hcont _ g1 l2a m2); auto.
-    apply typed_tset; [apply typed_tset; [exact Hty1|intros o _; exact NE1]|].
-    intros o Ho. cbn [o_opcode set_infoIndex]. pcbn_in Ho. rewrite get_tset, N.eqb_refl, Hao in Ho. cbn [option_map] in Ho.
-    inversion Ho. cbn [o_opcode set_opcode]. exact NE1. }
+    - apply typed_tset; [apply typed_tset; [exact Hty1|intros o _; exact NE1]|].
+      intros o Ho. cbn [o_opcode set_infoIndex]. pcbn_in Ho. rewrite get_tset, N.eqb_refl, Hao in Ho. cbn [option_map] in Ho.
+      inversion Ho. cbn [o_opcode set_opcode]. exact NE1.
+    - pcbn. rewrite tset_twice. apply (K_upd _ g1 argIndex ao _ HR1 HK1 Hao Eop); cbn [o_opcode set_infoIndex set_opcode]; [vm_compute; discriminate|exact NE1]. }
   destruct Hres as [?|Hlive_t]; [contradiction|].
   assert (Hlt1 : glive g1 target) by (apply (R_live_glive _ _ HR1); exact Hlive_t).
   apply wp_bind. apply wp_objectAt'; [apply (TI_ObjectAt _ _ _ H1 Hlt1)|].
@@ -204,6 +221,8 @@ Proof.
     { unfold s4. pcbn. apply typed_tset; [apply typed_tset; [apply typed_tset; [exact Hty1|intros o _; exact NE2]|]|].
       - intros o Ho. cbn [o_opcode set_infoIndex]. rewrite get_tset, N.eqb_refl, Hao in Ho. cbn [option_map] in Ho. inversion Ho. exact NE2.
       - intros o Ho. cbn [o_opcode set_value]. rewrite !get_tset, !N.eqb_refl, Hao in Ho. cbn [option_map] in Ho. inversion Ho. exact NE2. }
+    assert (HK4 : K (p_tree s4) g1).
+    { unfold s4. pcbn. rewrite !tset_twice. apply (K_upd _ g1 argIndex ao _ HR1 HK1 Hao Eop); cbn [o_opcode set_infoIndex set_opcode set_value]; [vm_compute; discriminate|exact NE2]. }
     pose proof (ti_R _ _ H4) as HR4.
     assert (Hlive_t4 : live (p_tree s4) target) by (apply (R_live_glive _ _ HR4); exact Hlt1).
     apply wp_bind. eapply wp_tq; [apply (ArgAt_spec _ _ HR4 target 1 Hlive_t4)|].
@@ -216,14 +235,17 @@ Proof.
     apply wp_bind. unfold attachSiblingsAsArgs.
     destruct (sibling_links _ _ HR4 obj l1 argIndex l2a Hl1 Hk1) as (ao4 & Hao4 & _ & _ & _ & Hnx4 & _).
     apply wp_bind. apply wp_rdf. exists ao4. split; [exact Hao4|]. rewrite Hnx4.
-    eapply wp_weaken; [apply (attach2_spec fuel obj argIndex (hd InvalidIndex l2a) _ s4 g1 l1 l2a GP m1 m2 H4 Hl1 Hk1 Hctx1)|auto|].
+    eapply wp_weaken; [apply (attach2_spec K K_move fuel obj argIndex (hd InvalidIndex l2a) _ s4 g1 l1 l2a GP m1 m2 H4 Hl1 Hk1 Hctx1)|auto|].
     + destruct l2a as [|y l2a']; cbn [sib_ok hd]; [left|]; reflexivity.
-    + intros r s5 (g5 & l2b & m2b & H5 & Rl5 & Hk5 & Hctx5 & Hroots5 & Hpf5).
+    + exact HK4.
+    + exists ao4. split; [exact Hao4|]. unfold s4 in Hao4. pcbn_in Hao4. rewrite !get_tset, !N.eqb_refl, Hao in Hao4. cbn [option_map] in Hao4.
+      inversion Hao4. cbn [o_infoIndex set_value set_infoIndex]. intros E. rewrite E in Hidx. vm_compute in Hidx. discriminate.
+    + intros r s5 (g5 & l2b & m2b & H5 & Rl5 & Hk5 & Hctx5 & Hroots5 & Hpf5 & HK5).
       assert (Rl5' : reloc g g5 S0) by (eapply reloc_chain; [apply closed_desc|exact HS0top|exact Rl1'|exact Rl5]).
       assert (Hty5 : typed (p_tree s5)) by (eapply typed_pframe; eauto).
       destruct (negb (pres_eqb r ROk)).
       { apply wp_ret. exists g5, m2b. split; [exact H5|]. split; [exact Rl5'|]. split; [exact Hctx5|].
-        split; [intros r0 Hr0; apply Hroots5; apply Hroots1; exact Hr0|exact Hty5]. }
+        split; [intros r0 Hr0; apply Hroots5; apply Hroots1; exact Hr0|]. split; [exact Hty5|exact HK5]. }
       apply (Hcont s5 g5 l2b m2b); auto.
   - (* a reference to another object *)
     apply wp_bind. eapply (wp_set_opcode _ argIndex _ s1 g1); [exact H1|exact Hla1|exact NK3|]. intros H2.
@@ -232,9 +254,10 @@ Proof.
     apply wp_bind. eapply (wp_set_info _ argIndex idx _ g1); [exact H2|exact Hla1|exact Hinf|]. intros H3.
     apply wp_bind. eapply (wp_set_vidx _ argIndex _ _ g1); [exact H3|exact Hla1|]. intros H4.
     apply (Hcont _ g1 l2a m2); auto.
-    pcbn. apply typed_tset; [apply typed_tset; [apply typed_tset; [exact Hty1|intros o _; exact NE3]|]|].
-    + intros o Ho. cbn [o_opcode set_infoIndex]. rewrite get_tset, N.eqb_refl, Hao in Ho. cbn [option_map] in Ho. inversion Ho. exact NE3.
-    + intros o Ho. cbn [o_opcode set_value]. rewrite !get_tset, !N.eqb_refl, Hao in Ho. cbn [option_map] in Ho. inversion Ho. exact NE3.
+    + pcbn. apply typed_tset; [apply typed_tset; [apply typed_tset; [exact Hty1|intros o _; exact NE3]|]|].
+      * intros o Ho. cbn [o_opcode set_infoIndex]. rewrite get_tset, N.eqb_refl, Hao in Ho. cbn [option_map] in Ho. inversion Ho. exact NE3.
+      * intros o Ho. cbn [o_opcode set_value]. rewrite !get_tset, !N.eqb_refl, Hao in Ho. cbn [option_map] in Ho. inversion Ho. exact NE3.
+    + pcbn. rewrite !tset_twice. apply (K_upd _ g1 argIndex ao _ HR1 HK1 Hao Eop); cbn [o_opcode set_infoIndex set_opcode set_value]; [vm_compute; discriminate|exact NE3].
 Qed.
 
 Lemma calls_all : forall fuel, RC_spec fuel /\ RCloop_spec fuel.
@@ -243,6 +266,10 @@ Proof.
   - split; intro; intros; cbn [resolveMethodCalls resolveCalls_loop]; apply wp_outOfFuel; exact I.
   - split; [apply step_RC; exact IHl|apply step_RCloop; assumption].
 Qed.
+End Inv.
+
+Lemma KT_upd : Kupd KT.
+Proof. unfold Kupd. intros. exact I. Qed.
 
 Theorem resolveMethodCalls_never_panics : forall fuel s g,
   R (p_tree s) g -> info_valid (p_tree s) -> pool_ok (p_tables s) (p_tree s) -> typed (p_tree s) ->
@@ -254,9 +281,9 @@ Theorem resolveMethodCalls_never_panics : forall fuel s g,
   end.
 Proof.
   intros fuel s g HR Hi Hp Hty H0 Hroot.
-  pose proof (proj1 (calls_all fuel) 0 s g None [] [] (mkTI _ _ HR Hi Hp) Hty H0 H0 (conj Hroot eq_refl)) as W. unfold wp in W.
+  pose proof (proj1 (calls_all KT KT_move KT_upd fuel) 0 s g None [] [] (mkTI _ _ HR Hi Hp) Hty H0 H0 (conj Hroot eq_refl) I) as W. unfold wp in W.
   destruct (resolveMethodCalls fuel 0 s) as [[r s']| |]; auto.
-  destruct W as (g' & m2' & [A B C] & _ & _ & _ & D). eauto.
+  destruct W as (g' & m2' & [A B C] & _ & _ & _ & D & _). eauto.
 Qed.
 
 (** the hypotheses are satisfiable: a state whose pool holds just a root scope *)
